@@ -33,9 +33,9 @@ RULES = {
     "C26": [("sa.rules.b2", "r_C26a"), ("sa.rules.b2", "r_C26bcdef"), ("sa.rules.c26", "r_C26eval")],
     "C27": [("sa.rules.b1", "r_C27"), ("sa.rules.c25", "r_C27d")],
     "C28": [("sa.rules.b7", "r_origin"), ("sa.rules.b3", "r_C28b_C33b_C30bc"), ("sa.rules.c08", "r_C08bc"), ("sa.rules.cmisc", "r_C06bcd"), ("sa.rules.c25", "r_C28cd"), ("sa.rules.c25", "r_C28e"), ("sa.rules.c25", "r_C28f")],
-    "C29": [("sa.rules.b5", "r_C29"), ("sa.rules.c29", "r_export2"), ("sa.rules.c29", "r_C29e")],
+    "C29": [("sa.rules.b5", "r_C29"), ("sa.rules.c29", "r_export2"), ("sa.rules.c29", "r_C29e"), ("sa.rules.c29", "r_C31d_C29f")],
     "C30": [("sa.rules.b1", "r_C30a"), ("sa.rules.b3", "r_C28b_C33b_C30bc"), ("sa.rules.c29", "r_cli2"), ("sa.rules.c26", "r_C26eval")],
-    "C31": [("sa.rules.b4", "r_ledger"), ("sa.rules.c14", "r_ledger2"), ("sa.rules.c29", "r_export2")],
+    "C31": [("sa.rules.b4", "r_ledger"), ("sa.rules.c14", "r_ledger2"), ("sa.rules.c29", "r_export2"), ("sa.rules.c29", "r_C31d_C29f")],
     "C32": [("sa.rules.c32", "r_C32"), ("sa.rules.c32", "r_C32c"), ("sa.rules.c32", "r_C32de")],
     "C33": [("sa.rules.b1", "r_C33a"), ("sa.rules.b3", "r_C28b_C33b_C30bc"), ("sa.rules.c29", "r_C33c_C34g"), ("sa.rules.cmisc", "r_C06bcd")],
     "C34": [("sa.rules.b3", "r_C08_C34"), ("sa.rules.c08", "r_C08bc"), ("sa.rules.cmisc", "r_C13d_C34f_C09d"), ("sa.rules.c29", "r_C33c_C34g"), ("sa.rules.cmisc", "r_C06bcd")],
